@@ -15,4 +15,7 @@ for f in glob.glob(ROOT + "/tools/go2v/*.go"):
     src = open(f).read()
     if any(('"' + t + '"' in src) or ("/" + t + '"' in src) or (t in src) for t in touched):
         out.update(owners)
+# C09's effect extractor reads whole packages, not named files
+if any(m.startswith(("compose/", "flow/agent/", "internal/callbacks/")) for m in re.findall(r"^\+\+\+ b/(\S+)", patch, flags=re.M)):
+    out.add("C09")
 print(" ".join(sorted(x for x in out if x in ids)))
